@@ -679,6 +679,37 @@ def main(tier):
         if b:
             sbad.append(dict(show_case(cmd, opt, s), differs=b, model=model, subprocess={k: (v[-400:] if isinstance(v, str) else v) for k, v in sub.items()}))
     chk.add_corr("cli as a real process (python main.py …: stdout, exit status, stderr class) vs model and in-process run", len(pick), sbad)
+    # history: the same expression several times in ONE interpreter (table, table again, table -o, json, table): what a command prints
+    # is a function of its arguments, whatever ran before (a cached parse tree whose variables kept their last values shows here)
+    hrng = random.Random(chk.seed * 131 + 20)
+    hwords = ["a & b", "p | q", "a ^ b", "~a & b", "q & ~p", "(a | b) & c", "a & b | c", "~(a ^ b)", "c & (a | ~b)", "x", "a & a", "true & a", "foo | ~bar & baz"]
+    for _ in range(30 if tier == "quick" else 300):
+        n = hrng.randint(1, 3)
+        w = hrng.choice(["a", "b", "~a", "q"])
+        for _k in range(n):
+            r = hrng.choice(["a", "b", "c", "p", "~b", "true"])
+            w = f"({w}) {hrng.choice('&|^')} {r}" if hrng.random() < 0.5 else f"{r} {hrng.choice('&|^')} ({w})"
+        hwords.append(w)
+    hbad = 0
+    for w in hwords:
+        seq = [("table", False), ("table", False), ("table", True), ("json", False), ("table", False), ("json", True), ("table", True)]
+        outs = {}
+        for step, (cmd, opt) in enumerate(seq):
+            res = run_cli(cmd, opt, w)
+            if res.get("runner_error"):
+                continue
+            # with -o the open optimizer findings (KF-xorNotAnd / KF-xorOr) are inherited and judged by the main stream with its
+            # model: here only "same arguments, same output"; without -o also the property itself
+            bad = None if opt else judge(cmd, opt, w, res)
+            first = outs.setdefault((cmd, opt), res["out"])
+            if bad is None and res["out"] != first:
+                bad = {"what": "the same command on the same expression printed something else the second time", "first": first[:300], "now": res["out"][:300]}
+            if bad is not None:
+                hbad += 1
+                chk.add_failure({"cmd": cmd, "optimize": opt, "text": w, "history": [f"{c}{' -o' if o else ''}" for c, o in seq[:step]]}, {**bad, "note": "in-process history"}, None)
+                break
+    chk.evaluations += len(hwords) * 7
+    chk.extra["history_words"] = len(hwords)
     self_test(chk)
     chk.extra.update(stats)
     chk.extra["words"] = len(words)
@@ -707,6 +738,20 @@ def main(tier):
 def replay(path):
     d = json.load(open(path))
     inp = d.get("input")
+    if d.get("kind") == "failing-input" and isinstance(inp, dict) and "history" in inp and "text" in inp:
+        # re-enact the recorded in-process history, then the failing command
+        for h in inp["history"]:
+            c, _, o = h.partition(" ")
+            run_cli(c, o == "-o", inp["text"])
+        res = run_cli(inp["cmd"], inp["optimize"], inp["text"])
+        first = None
+        for h in inp["history"]:
+            c, _, o = h.partition(" ")
+            if (c, o == "-o") == (inp["cmd"], bool(inp["optimize"])):
+                first = first or run_cli(c, o == "-o", inp["text"])["out"]
+        bad = None if inp["optimize"] else judge(inp["cmd"], inp["optimize"], inp["text"], res)
+        print("after", inp["history"], "->", inp["cmd"], repr(inp["text"]), ":", repr(res["out"])[:400], "| judged:", bad)
+        return 1 if (bad or (first is not None and first != res["out"])) else 0
     if d.get("kind") != "failing-input" or not isinstance(inp, dict) or "codepoints" not in inp:
         print(json.dumps(d, indent=1)[:4000])
         return 1
